@@ -231,6 +231,27 @@ func (r *Report) Eval(canon string, nontrivial bool, sample interface{}) {
 	}
 }
 
+// Inflight journals the case about to be executed (when the check asked for it), so that a case that kills
+// the process - a crash outside recover, memory exhaustion, a hang - can be re-run on its own and reported.
+func Inflight(c interface{}) {
+	p := os.Getenv("VERIF_INFLIGHT")
+	if p == "" {
+		return
+	}
+	b, err := json.Marshal(c)
+	if err != nil {
+		return
+	}
+	os.WriteFile(p, b, 0644)
+}
+
+// InflightDone clears the journal.
+func InflightDone() {
+	if p := os.Getenv("VERIF_INFLIGHT"); p != "" {
+		os.WriteFile(p, nil, 0644)
+	}
+}
+
 func (r *Report) Fail(kind string, kf []string, c interface{}, detail map[string]interface{}) {
 	r.mu.Lock()
 	defer r.mu.Unlock()
@@ -239,12 +260,17 @@ func (r *Report) Fail(kind string, kf []string, c interface{}, detail map[string
 			r.KFHits[k]++
 		}
 	}
-	r.Histogram["fail:"+kind]++
+	if len(kf) > 0 {
+		r.Histogram["fail:"+kind+":known_finding"]++
+	} else {
+		r.Histogram["fail:"+kind]++
+	}
 	// keep up to maxFail cases per kind, so that a flood of correspondence failures cannot crowd
 	// out a property violation
+	// (cases accounted to known findings have their own quota)
 	n := 0
 	for _, f := range r.Failures {
-		if f.Kind == kind {
+		if f.Kind == kind && (len(f.KF) > 0) == (len(kf) > 0) {
 			n++
 		}
 	}
